@@ -138,6 +138,12 @@ def gen(ctx):
     # two sessions side by side, each exact, the server accepts exactly two connections
     add("second-connection", 512 * KIB, 512 * KIB, ["c0:%s=%d" % (rng.choice(["cutu", "cutd", "stop"]), rng.randrange(1000, 300000))],
         second=rng.choice([1, 100000, 300000]))
+    # one short scenario of each remaining fault class also in the quick tier (longer variants below)
+    add("sigstop", Q, Q, ["c0:pause=%d,%d" % (rng.randrange(1000, 200000), rng.randrange(1000, 6000))])
+    add("sigterm", Q, Q, ["c0:term=%d" % rng.randrange(1000, 250000)])
+    add("cut-during-redial", Q, Q, ["c0:cutu=%d" % rng.randrange(1000, 200000), "c1:cutu=%d" % rng.choice([0, 5, 6, 13, 14, 15, 22])])
+    add("broker-delay", 64 * KIB, 64 * KIB, ["b0:delay=3000"])
+    add("killed-before-datachannel", 64 * KIB, 64 * KIB, ["b0:killall"])
     if ctx.tier != "thorough":
         return S
     # ---- thorough tier
